@@ -1,38 +1,45 @@
 ------------------------------ MODULE ScopeGen ------------------------------
 (***************************************************************************)
-(* Enumerates the bounded space of Scope.tla, one structure per state (the *)
-(* state is an index into the sequence of structures, visited as a binary  *)
-(* tree so that workers share the work).                                   *)
+(* Enumerates the bounded space of Scope.tla: one structure per initial    *)
+(* state (ph = 0); its single successor (ph = 1) is where the invariants   *)
+(* are evaluated, so that the workers share the work.                      *)
 (*  - ScopeMC*.cfg  (Directed = FALSE): every structure, well-scoped or    *)
-(*    not; invariant RT = the checker's walk agrees with the semantics;    *)
-(*    GenOK = the directed generator is sound and complete (small bound).  *)
+(*    not; RT = the checker's walk (Alg) agrees with the semantics;        *)
+(*    GenOK = the directed generator yields exactly the well-scoped ones   *)
+(*    (compared up to cost CompleteUpTo).                                  *)
 (*  - ScopeGen*.cfg (Directed = TRUE): the well-scoped structures, printed *)
 (*    one JSON line each for the replay on the real language services      *)
-(*    (harness: vh scope-run), again with RT.                              *)
+(*    (harness: vh scope-run), again under RT.                             *)
 (***************************************************************************)
-EXTENDS Scope, Json, SequencesExt
+EXTENDS Scope, Json
 
-CONSTANTS MaxCost,    \* bound on the number of scope events
-          Directed,   \* TRUE: well-scoped structures only
-          CompleteUpTo \* GenOK compares the two generators up to this cost
+CONSTANTS MaxCost,      \* bound on the number of scope events
+          Directed,     \* TRUE: well-scoped structures only
+          CompleteUpTo  \* GenOK compares the two generators up to this cost (0: skip)
 
-VARIABLE i
+VARIABLES f, ph
 
-FunSeq == SetToSeq(Funs(Directed, MaxCost))
-N == Len(FunSeq)
-F == FunSeq[i]
+Init == f \in Funs(Directed, MaxCost) /\ ph = 0
+Next == ph = 0 /\ ph' = 1 /\ f' = f
 
-Init == i = 1
-Next == \E m \in {2 * i, 2 * i + 1} : m <= N /\ i' = m
-
-RT == AlgEqSem(F)
-GenSound == Directed => WellScoped(Occ(F))
-GenOK == i # 1 \/ GenComplete(CompleteUpTo)
+RT       == ph = 1 => AlgEqSem(f)
+GenSound == (ph = 1 /\ Directed) => WellScoped(Occ(f))
+\* evaluated once, on the smallest structure
+GenOK    == (ph = 1 /\ CompleteUpTo > 0 /\ f.params = <<>> /\ f.body.items = <<>> /\ f.body.fin = Lit)
+              => GenComplete(CompleteUpTo)
 \* always TRUE: one line per structure
-Emit == PrintT(<<"BEHAVIOUR", ToJson([t |-> F, nocc |-> Len(Occ(F))])>>)
-\* vacuity: how many structures are ill-scoped / have a sibling reuse / an or-pattern
-Ill == ~WellScoped(Occ(F))
+Emit == ph = 1 => PrintT(<<"BEHAVIOUR", ToJson([t |-> f, nocc |-> Len(Occ(f))])>>)
+
+\* vacuity (reported, never failing): the census of the space
+Kinds(occ) == { occ[j].b : j \in DOMAIN occ }
+Census ==
+  ph = 1 =>
+    LET occ == Occ(f)
+        ws  == WellScoped(occ)
+        \* two bindings of one name (sibling scopes) in a well-scoped structure
+        reuse == ws /\ \E a, b \in DOMAIN occ : a < b /\ IsBind(occ[a]) /\ IsBind(occ[b]) /\ occ[a].n = occ[b].n
+    IN PrintT(<<"CENSUS", IF ws THEN 1 ELSE 0, IF reuse THEN 1 ELSE 0, IF "alt" \in Kinds(occ) THEN 1 ELSE 0, Len(occ)>>)
+
 \* development aid
-Dbg == RT \/ PrintT(<<"RTFAIL", F, Occ(F), Alg(F), WellScoped(Occ(F))>>)
-AllVisited == TLCGet("stats").distinct = N
+Dbg == RT \/ PrintT(<<"RTFAIL", f, Occ(f), Alg(f), WellScoped(Occ(f))>>)
 =============================================================================
